@@ -135,6 +135,8 @@ def expand_ops(ops: List, meta: Optional[Dict]) -> List:
             if comps:
                 grp = comps[op[1] % len(comps)]
                 out.extend(["step", grp[v % len(grp)]] for v in op[2])
+        elif op[0] == "idle":
+            out.extend(["cat", "idle", 0] for _ in range(int(op[1])))
         else:
             out.append(op)
     return out
@@ -166,6 +168,29 @@ def ops_strategy(max_ops: int = 30, gen: bool = True, reset_weight: int = 2):
 def gen_case_strategy(draw, max_ops: int = 30, **kw):
     spec = draw(gen_scenario.spec_strategy(**kw))
     ops = draw(ops_strategy(max_ops, gen=True))
+    return {"src": "gen", "spec": spec, "ops": ops}
+
+
+@st.composite
+def long_case_strategy(draw, paths: Optional[List[str]] = None, **kw):
+    """Cases in which TIME passes: a short prefix of actions (biased to logins/sessions in generated scenarios), then a
+    tail of 26-45 consecutive idle steps (inactivity timeouts, scheduled attackers, keep-alives), then a few more ops.
+    Generated scenarios get max_episode_length 40-70 so that the tail fits into one episode."""
+    idle = st.integers(26, 45).map(lambda k: ["idle", k])
+    if paths and draw(st.integers(0, 3)) == 0:
+        pre = draw(st.lists(st.integers(0, 10**6).map(lambda a: ["step", a]), min_size=0, max_size=5))
+        post = draw(st.lists(st.integers(0, 10**6).map(lambda a: ["step", a]), min_size=0, max_size=3))
+        return {"src": "shipped", "path": draw(st.sampled_from(paths)), "max_len": None,
+                "ops": pre + [draw(idle)] + post}
+    spec = draw(gen_scenario.spec_strategy(**kw))
+    spec["max_len"] = draw(st.integers(40, 70))
+    sess = st.integers(0, 40).map(lambda j: ["cat", "session", j])
+    anyop = st.tuples(st.sampled_from(CATS), st.integers(0, 200)).map(lambda t: ["cat", t[0], t[1]])
+    pre = draw(st.lists(st.one_of(sess, anyop), min_size=1, max_size=6))
+    post = draw(st.lists(st.one_of(sess, anyop), min_size=0, max_size=4))
+    ops = pre + [draw(idle)] + post
+    if draw(st.booleans()):
+        ops += [["reset", None]] + draw(st.lists(sess, min_size=1, max_size=3)) + [draw(idle)]
     return {"src": "gen", "spec": spec, "ops": ops}
 
 
@@ -232,41 +257,40 @@ class Driver:
                 self.episodes += 1
                 if after_reset and after_reset(i, op, obs, info) is False:
                     return
-            elif op[0] == "wf":
-                comps = (self.meta or {}).get("components") or []
-                if not comps:
-                    continue
-                grp = comps[op[1] % len(comps)]
-                for v in op[2]:
+            elif op[0] in ("wf", "idle"):
+                if op[0] == "wf":
+                    comps = (self.meta or {}).get("components") or []
+                    if not comps:
+                        continue
+                    grp = comps[op[1] % len(comps)]
+                    acts = [grp[v % len(grp)] for v in op[2]]
+                else:  # ["idle", k]: k consecutive do-nothing steps (time passes, nothing is touched by the defender)
+                    amap = env.agent.action_manager.action_map
+                    a0 = next((k for k, v in amap.items() if v[0] == "do-nothing"), 0)
+                    acts = [a0] * int(op[1])
+                for a in acts:
                     if self.steps_in_episode >= env.game.options.max_episode_length + max_past:
                         break
-                    a = grp[v % len(grp)]
-                    sub = ["step", a]
-                    if before_step and before_step(i, sub, a) is False:
-                        return
-                    try:
-                        out = env.step(a)
-                    except Exception as e:
-                        act = env.agent.action_manager.action_map[a][0]
-                        self.error = ("step", exc_sig(e), f"op#{i} {op} action#{a} {act}: {exc_msg(e)}")
-                        self.error_action = act
-                        return
-                    self.steps_in_episode += 1
-                    self.total_steps += 1
-                    if after_step and after_step(i, sub, a, out) is False:
+                    if self._one_step(i, op, ["step", a], a, before_step, after_step) is False:
                         return
             else:
                 a = resolve_action(op, env.action_space.n, self.meta)
-                if before_step and before_step(i, op, a) is False:
+                if self._one_step(i, op, op, a, before_step, after_step) is False:
                     return
-                try:
-                    out = env.step(a)
-                except Exception as e:
-                    act = env.agent.action_manager.action_map[a][0]
-                    self.error = ("step", exc_sig(e), f"op#{i} {op} action#{a} {act}: {exc_msg(e)}")
-                    self.error_action = act
-                    return
-                self.steps_in_episode += 1
-                self.total_steps += 1
-                if after_step and after_step(i, op, a, out) is False:
-                    return
+
+    def _one_step(self, i, op, sub, a, before_step, after_step):
+        env = self.env
+        if before_step and before_step(i, sub, a) is False:
+            return False
+        try:
+            out = env.step(a)
+        except Exception as e:
+            act = env.agent.action_manager.action_map[a][0]
+            self.error = ("step", exc_sig(e), f"op#{i} {op} action#{a} {act}: {exc_msg(e)}")
+            self.error_action = act
+            return False
+        self.steps_in_episode += 1
+        self.total_steps += 1
+        if after_step and after_step(i, sub, a, out) is False:
+            return False
+        return True
